@@ -38,6 +38,7 @@ type C12Sheet struct {
 	CmdErr       int // value of -e (0 = option not given)
 	Delim        bool
 	LongLine     bool // one legacy sample line is longer than 64 KiB
+	BigSheet     bool // some two thousand samples: the sheet is larger than 128 KiB
 	LongHeader   bool // more than 3 KiB of comments before the first sample line
 	ClosePrimers bool // the forward primers of two markers differ by one substitution
 	Text         string
@@ -194,6 +195,11 @@ func C12MakeSheet(r *rand.Rand, opt C12Opt) *C12Sheet {
 			}
 		}
 	}
+	bigSheet := sh.Format == "csv" && !opt.Delim && r.Intn(40) == 0
+	if bigSheet {
+		nm = 1
+		sh.BigSheet = true
+	}
 	closePrimers := nm > 1 && r.Intn(6) == 0
 	ns := 0
 	for mi := 0; mi < nm; mi++ {
@@ -235,14 +241,22 @@ func C12MakeSheet(r *rand.Rand, opt C12Opt) *C12Sheet {
 			names := []string{"s%d", "S_%d", "pcr-%d", "smp.%d"}
 			m.Samples = append(m.Samples, C12Sample{FTag: f, RTag: rv, Name: fmt.Sprintf(names[r.Intn(len(names))], ns), Exp: exp, Extra: fmt.Sprintf("x%d", r.Intn(1000))})
 		}
+		if bigSheet {
+			m.Form = "pair"
+		}
 		switch m.Form {
 		case "pair":
 			m.FLen, m.RLen = tl(), tl()
-			ft := c12TagSet(r, 1+r.Intn(6), m.FLen, lev, delim)
-			rt := c12TagSet(r, 1+r.Intn(6), m.RLen, lev, delim)
+			nf, nr := 1+r.Intn(6), 1+r.Intn(6)
+			if bigSheet {
+				// a plate design: some 45 x 45 tag combinations, a sheet of 150 KiB and more
+				m.FLen, m.RLen, nf, nr = 9, 9, 48, 48
+			}
+			ft := c12TagSet(r, nf, m.FLen, lev, delim)
+			rt := c12TagSet(r, nr, m.RLen, lev, delim)
 			for _, f := range ft {
 				for _, rv := range rt {
-					if r.Intn(10) < 6 {
+					if bigSheet || r.Intn(10) < 6 {
 						add(f, rv)
 					}
 				}
